@@ -199,12 +199,22 @@ class Batch:
         run of the (pure) model.  specs: list of (glue, X, T, ops_fn).  Returns [(pm, ops, status)]."""
         runs = []
         for glue, X, T, ops_fn in specs:
-            pm = PyMesh.create(glue, X, T)
-            buf = [('mesh init %d %s %s' % (glue, enc(X), enc(T)), 'ok %d' % len(pm.mesh.leaf_elements), -1),
-                   ('mesh dump', dump_mesh(pm.mesh), -1)]
-            runs.append(dict(pm=pm, glue=glue, X=X, T=T, fn=ops_fn, ops=[], buf=buf, status='ok', k=0, done=False))
+            runs.append(dict(pm=None, glue=glue, X=X, T=T, fn=ops_fn, ops=[], buf=None, status='ok', k=0, done=False))
+
+        def create(r):
+            # meshes are constructed at different moments: the first one at once, the others when their turn first
+            # comes (a constructor that resets state shared with an older, already refined mesh would show)
+            r['pm'] = PyMesh.create(r['glue'], r['X'], r['T'])
+            r['buf'] = [('mesh init %d %s %s' % (r['glue'], enc(r['X']), enc(r['T'])), 'ok %d' % len(r['pm'].mesh.leaf_elements), -1),
+                        ('mesh dump', dump_mesh(r['pm'].mesh), -1)]
+        create(runs[0])
         while any(not r['done'] for r in runs):
-            r = rng.choice([r for r in runs if not r['done']])
+            started = [r for r in runs if not r['done'] and r['pm'] is not None]
+            fresh = [r for r in runs if r['pm'] is None]
+            if fresh and (not started or rng.random() < 0.12):
+                create(fresh[0])
+                continue
+            r = rng.choice(started)
             op = r['fn'](r['pm'], r['k'])
             if op is None:
                 r['done'] = True
